@@ -368,8 +368,15 @@ impl Operator for VectorJoinOperator {
         }
 
         // Ensure we have results to process (advances left if needed)
-        if self.current_result_position >= self.current_results.len() && !self.advance_left()? {
-            return Ok(None);
+        if self.current_result_position >= self.current_results.len() {
+            // The previous call may have filled its chunk exactly at the end of the
+            // current left row's results: that row is finished, move past it.
+            if self.current_left_chunk.is_some() {
+                self.current_left_row += 1;
+            }
+            if !self.advance_left()? {
+                return Ok(None);
+            }
         }
 
         // Get left chunk schema for output (now guaranteed to have a chunk)
